@@ -15,6 +15,7 @@ func init() {
 			{Test: "TestC01_Links", Quick: 1000, Thorough: 40000},
 			{Test: "TestC01_Wire", Quick: 1500, Thorough: 160000},
 			{Test: "TestC01_Stdio", Quick: 1200, Thorough: 20000, Shards: 2},
+			{Test: "TestC01_StdioRT", Quick: 60, Thorough: 2000, Shards: 4},
 		},
 	})
 }
